@@ -1,0 +1,5 @@
+//go:build !verif
+
+package gengo
+
+func verifPoint(point string, detail string) {}
